@@ -1395,3 +1395,9 @@ mut("merge_step_before_reseek", ["C04", "C03"], "PAIR-8", patch="merge_step_befo
 mut("trailer_write_error_swallowed", ["C08", "C15"], "ERR-1", patch="trailer_write_error_swallowed.diff")
 mut("revert_D12", ["C08", "C15"], "ERR-", patch="revert_D12_iterators_without_status.diff", note="next/prev log the error that cut the step short and nobody can ask for it")
 mut("get_error_ignores_child_status", ["C15", "C08"], "ERR-4", patch="get_error_ignores_child_status.diff", note="the compaction does not see an error a child iterator met while stepping")
+mut("writer_offset_advanced_before_write", ["C12", "C08"], "ORD-22", patch="writer_offset_advanced_before_write.diff")
+mut("full_fragment_appended_to_stale_buffer", ["C12", "C16"], "TS-1", patch="full_fragment_appended_to_stale_buffer.diff")
+mut("recovery_output_never_unregistered", ["C11"], "ORD-13", patch="recovery_output_never_unregistered.diff")
+mut("manifest_number_allocated_only_without_reuse", ["C11", "C02"], "ROLE-4", patch="manifest_number_allocated_only_without_reuse.diff")
+mut("revert_D12b", ["C15", "C08"], "ERR-4", patch="revert_D12b_status_lost_at_list_ends.diff", note="the skip helpers drop the table iterator at either end of the file list without keeping its status")
+mut("revert_D19", ["C07", "C01"], "PAIR-9", patch="revert_D19_parent_set_not_expanded.diff", note="the grown parent-level inputs are not boundary-expanded")
